@@ -1067,6 +1067,12 @@ fn store_case(rep: &mut Report, scratch: &Scratch, seed: u64, shard: u64, case_n
                 Step::Reopen => {
                     drop(kvs);
                     kvs = KeyValueStore::open(sc.cfg.options(&base_s)).map_err(|e| e.to_string())?;
+                    // stop at a tree with the known recovery defect: later compactions assert on it
+                    let mut h = crate::e1::History::attach(&base, sc.cfg.clone(), sc.keys.clone());
+                    h.levels_override = Some(kvs.verif_tree().verif_levels());
+                    if h.check_structure(true).is_err() {
+                        break;
+                    }
                 }
             }
         }
